@@ -21,6 +21,7 @@ import (
 type PropCfg struct {
 	Pkg      string   `json:"pkg"`      // package dir of the replay harness ("." or "stanza")
 	Funcs    []string `json:"funcs"`    // functions under contract in this property's closure
+	UseScan  []FrameScanCfg `json:"use_scan"` // fields that only the listed functions may touch at all (guarded state)
 	DepSkip  []string `json:"dep_skip"` // label prefixes of dependency clauses that are verified under their own property only
 	Deps     []string `json:"deps"`     // functions whose whole contract (all labels) is re-verified here because this property's proofs rely on it
 	Lemmas   []string `json:"lemmas"`   // lemma labels
@@ -345,6 +346,22 @@ func cmdCheck(args []string) int {
 		o := vc.ScanObligation(fmt.Sprintf("framescan(%s.%s)", fsc.Struct, fsc.Field), fmt.Sprintf("only %v store to %s.%s (found: %v)", fsc.Allowed, fsc.Struct, fsc.Field, writers), len(bad) == 0, fmt.Sprintf("unlisted writers: %v", bad))
 		obls = append(obls, o)
 	}
+	// guarded fields: no function outside the listed ones touches the field at all
+	for _, fsc := range cfg.UseScan {
+		allowed := map[string]bool{}
+		for _, a := range fsc.Allowed {
+			allowed[a] = true
+		}
+		users := p.UseScan(fsc.Struct, fsc.Field)
+		var bad []string
+		for _, w := range users {
+			if !allowed[w] {
+				bad = append(bad, w)
+			}
+		}
+		o := vc.ScanObligation(fmt.Sprintf("usescan(%s.%s)", fsc.Struct, fsc.Field), fmt.Sprintf("only %v use %s.%s (found: %v)", fsc.Allowed, fsc.Struct, fsc.Field, users), len(bad) == 0, fmt.Sprintf("unlisted users: %v", bad))
+		obls = append(obls, o)
+	}
 	// global invariants rely on nobody storing to the globals they mention
 	if len(p.CS.GlobalInvs) > 0 {
 		stores := p.GlobalStores()
@@ -359,11 +376,41 @@ func cmdCheck(args []string) int {
 		sort.Strings(bad)
 		obls = append(obls, vc.ScanObligation("globalscan", "package-level variables named in globalinv clauses are never stored to outside package initialisation", len(bad) == 0, strings.Join(bad, "; ")))
 	}
+	retried := 0
 	timeout := 10 * time.Second
 	if *tier == "thorough" {
 		timeout = 60 * time.Second
 	}
-	results := vc.Aggregate(vc.SolveAll(obls, vc.SolverCfg{Timeout: timeout, Scratch: sc, Models: true, AllAgree: *tier == "thorough"}, 16))
+	raw := vc.SolveAll(obls, vc.SolverCfg{Timeout: timeout, Scratch: sc, Models: true, AllAgree: *tier == "thorough"}, 16)
+	// An undecided case (unknown / time-out) is asked once more with three times the budget and all solvers from the
+	// start: a slow or loaded machine must not turn a provable obligation into an alarm. Obligations of open known
+	// findings are expected to fail and are not retried.
+	if *tier != "thorough" {
+		knownObl := map[string]bool{}
+		for _, f := range kf.Open {
+			if f.Property == *prop {
+				knownObl[f.Obligation] = true
+			}
+		}
+		var again []*vc.Obligation
+		var idx []int
+		for i, r := range raw {
+			if !r.Obl.Cover && (r.Status == "unknown" || r.Status == "timeout") && !knownObl[r.Obl.Name] {
+				again = append(again, r.Obl)
+				idx = append(idx, i)
+			}
+		}
+		// (more than a dozen undecided cases is not a flake: no retry, report them)
+		if len(again) > 0 && len(again) <= 12 {
+			rs := vc.SolveAll(again, vc.SolverCfg{Timeout: 3 * timeout, Scratch: sc, Models: true, Stagger: time.Millisecond}, 8)
+			for j, r := range rs {
+				r.Seconds += raw[idx[j]].Seconds
+				raw[idx[j]] = r
+			}
+			retried = len(again)
+		}
+	}
+	results := vc.Aggregate(raw)
 
 	// classify
 	var reports []oblReport
@@ -577,7 +624,7 @@ func cmdCheck(args []string) int {
 		fmt.Println(l)
 	}
 	wall := time.Since(start).Seconds()
-	fmt.Printf("%s %s: %d obligations, %d discharged, %d failed (%d known), %d covers ok/%d, %.1fs\n", *prop, *tier, nObl, nDis, len(failed), len(knownHit), coversOK, covers, wall)
+	fmt.Printf("%s %s: %d obligations, %d discharged, %d failed (%d known), %d covers ok/%d, %d retried, %.1fs\n", *prop, *tier, nObl, nDis, len(failed), len(knownHit), coversOK, covers, retried, wall)
 
 	if !*noEvidence {
 		level := cfg.Level
